@@ -116,8 +116,6 @@ thread_local! {
     pub static ME: Cell<usize> = const { Cell::new(0) };
     pub static OP_READS: RefCell<Vec<ReadRec>> = const { RefCell::new(Vec::new()) };
     pub static CLOCK_READS: RefCell<Vec<i128>> = const { RefCell::new(Vec::new()) };
-    /// net bytes allocated by harness code inside the current measurement window
-    pub static HARNESS_NET: Cell<isize> = const { Cell::new(0) };
     /// when set, reads are served from a recorded list (alone re-execution)
     pub static REPLAY: RefCell<Option<ReplayReader>> = const { RefCell::new(None) };
     /// when set, the clock hook answers this reading (alone re-execution)
@@ -136,10 +134,9 @@ pub fn lock() -> MutexGuard<'static, Option<World>> {
 
 /// Run harness code inside a measurement window without charging it to the library.
 pub fn harness<T>(f: impl FnOnce() -> T) -> T {
-    let l0 = alloc::live();
+    let tok = alloc::pause();
     let t = f();
-    let d = alloc::live() - l0;
-    HARNESS_NET.with(|h| h.set(h.get() + d));
+    alloc::resume(tok, 0);
     t
 }
 
@@ -342,15 +339,14 @@ pub fn empty_read(_path: &str) -> ReadResult {
 
 /// The read seam handed to `TimeZoneSettings::new`.
 pub fn sim_read(path: &str) -> ReadResult {
-    let l0 = alloc::live();
+    let tok = alloc::pause();
     let ret = sim_read_inner(path);
     // everything allocated in here is harness memory, except what is handed to the library
     let handed = match &ret {
         Ok(v) => v.capacity() as isize,
         Err(_) => std::mem::size_of::<SimIoError>() as isize,
     };
-    let d = alloc::live() - l0 - handed;
-    HARNESS_NET.with(|h| h.set(h.get() + d));
+    alloc::resume(tok, handed);
     ret
 }
 
